@@ -5,9 +5,12 @@ root = os.path.dirname(os.path.dirname(os.path.abspath(__file__)))
 base = json.load(open(os.path.join(root, "manifest.base.json")))
 checks = []
 claimed = set()
+ready = set(open(os.path.join(root, "ready.txt")).read().split())
 for f in sorted(glob.glob(os.path.join(root, "props", "*", "check.json"))):
     c = json.load(open(f))
     pid = c["property_id"]
+    if pid not in ready:
+        continue
     claimed.add(pid)
     c.setdefault("quick_cmd", f"./check {pid} quick")
     c.setdefault("thorough_cmd", f"./check {pid} thorough")
